@@ -1,4 +1,4 @@
-\* non-vacuity: the compile step as shipped (OPEN with a bare CLOSE raises TypeError) -- TLC must violate CompileInv
+\* non-vacuity: the compile step as shipped before the fix 41a2136 (OPEN with a bare CLOSE raises TypeError) -- TLC must violate CompileInv
 CONSTANTS
   Base <- MCBase
   KeyTab <- MCKeyTab
